@@ -53,8 +53,9 @@ def make_ds(ctx, rng, d):
         pagesize, version = 64, 2
     if d == 3:
         # directed: a partitioned dataset for AND groups that mix partition and ordinary conditions in either order
-        if "p" not in df.columns:
-            df["p"] = np.array([rng.randrange(0, 3) for _ in range(n)], dtype="int64")
+        # every (incoming row group, partition) piece holds small and large `i`, so that no piece is pruned by the statistics of `i`
+        df["p"] = np.array([r % 3 for r in range(n)], dtype="int64")
+        df["i"] = np.array([(r * 5) % 12 for r in range(n)], dtype="int64")
         layout, parts = "hive-part", ["p"]
     path = os.path.join(ctx.workdir("c13"), f"d{d}")
     shutil.rmtree(path, ignore_errors=True)
@@ -125,8 +126,11 @@ def run(ctx, report):
                 gap = d in (1, 2) and p < 4
                 mixed = d == 3 and p < 4 and "p" in desc["parts"]
                 ponly = d == 3 and p in (4, 5) and "p" in desc["parts"]
+                orpart = d == 3 and p in (6, 7) and "p" in desc["parts"]
                 if mixed or ponly:
                     kind = "flat2"
+                if orpart:
+                    kind = "or2"
                 if gap:
                     # directed: rows selected in the first and in later pages of a row group, none in the page(s) between
                     kind = "mask" if p % 2 == 0 else "or2"
@@ -158,6 +162,11 @@ def run(ctx, report):
                         if gap:
                             lo, hi = (5, 20) if p == 1 else (1, 26)
                             dnf = [[("rid", "<", lo)], [("rid", ">=", hi)]]
+                        if orpart:
+                            # an OR of AND groups one of which names the partition column: rows of OTHER partitions that satisfy the
+                            # rest of that group must not come back
+                            dnf = [[[("p", "==", 1), ("i", ">", 4)], [("i", "<", 2)]],
+                                   [[("i", "<", 2)], [("p", "in", [0, 2]), ("flag", "==", 1)]]][p - 6]
                         filt = dnf
                     rec["filters"] = repr(filt)
                     rec["mentions_partition_in_or"] = bool(desc["parts"]) and len(dnf) > 1 and any(c[0] in desc["parts"] for g in dnf for c in g)
@@ -256,7 +265,14 @@ def model_req(pf, full, filt, dnf, is_flat, parts):
     """request for `rowfilter eval` + the real selection computed by ParquetFile._column_filter"""
     cs = pf._columns_from_filters(filt)
     frame = full[cs] if cs else full[[]]
-    real = [int(x) for x in pf._column_filter(frame, filters=filt)]
+    sizes = [int(rg.num_rows) for rg in pf.row_groups]
+    try:
+        # as repaired: conditions on partition columns are evaluated per row group
+        real = [int(x) for x in pf._column_filter(frame, filters=filt, rgs=list(pf.row_groups))]
+        sizes_txt = f" sizes={fmt_list(sizes)}"
+    except TypeError:
+        real = [int(x) for x in pf._column_filter(frame, filters=filt)]
+        sizes_txt = ""
     allcols = sorted({c[0] for g in dnf for c in g})
     colid = {c: k for k, c in enumerate(allcols)}
     rank = {}
@@ -286,7 +302,7 @@ def model_req(pf, full, filt, dnf, is_flat, parts):
                 cs_.append(f"[{colid[c]},{enc_op(op)},{rank[c][v]},[]]")
         groups.append("[" + ",".join(cs_) + "]")
     pids = [colid[p] for p in parts if p in colid]
-    return (f"rowfilter eval flat={1 if is_flat else 0} parts={fmt_list(pids)} filters=[{','.join(groups)}] rows=[{','.join(rows)}]", real)
+    return (f"rowfilter eval flat={1 if is_flat else 0} parts={fmt_list(pids)}{sizes_txt} filters=[{','.join(groups)}] rows=[{','.join(rows)}]", real)
 
 
 def search(ctx, report):
